@@ -524,6 +524,24 @@ func replayRun(prog *Prog, c *VC, o *Obligation, dir, repo string, rep *replayRe
 		}
 	}
 	bodyS := body.String()
+	// packages the clause text itself mentions (e.g. io.ErrUnexpectedEOF): take them from the import
+	// list of the ghost file that holds the contract
+	if fi.Contract != nil {
+		for f := range prog.fileOf {
+			if f.Pos() <= fi.Contract.Decl.Pos() && fi.Contract.Decl.Pos() < f.End() {
+				for _, im := range f.Imports {
+					path := strings.Trim(im.Path.Value, "\"")
+					name := path[strings.LastIndex(path, "/")+1:]
+					if im.Name != nil {
+						name = im.Name.Name
+					}
+					if _, have := imports[path]; !have && name != "_" && name != "." && strings.Contains(bodyS, name+".") {
+						imports[path] = name
+					}
+				}
+			}
+		}
+	}
 	for path, name := range imports {
 		if path == "fmt" || path == "testing" || (path == "math" && needMath) {
 			continue
